@@ -3,7 +3,9 @@ package main
 import (
 	"bytes"
 	"fmt"
+	"runtime"
 	"sort"
+	"sync"
 )
 
 // sweeps: every single-bit mutation (or a stride of them) of every verifying signed
@@ -62,9 +64,37 @@ func (r *run) sweepFile(sf *signedFile, all bool) (int, int) {
 	}
 	var normalised, unexplained, malleable, panics []int
 	rejectedSample := map[string][]int{}
-	for _, bit := range positions {
+	// the suite's verdicts on all mutants: independent calls, computed by a pool of
+	// workers; everything that draws from the PRNG or counts stays sequential below
+	outs := make([]int, len(positions))
+	{
+		var wg sync.WaitGroup
+		nw := runtime.GOMAXPROCS(0)
+		if nw > 12 {
+			nw = 12
+		}
+		chunk := (len(positions) + nw - 1) / nw
+		for w := 0; w < nw; w++ {
+			lo, hi := w*chunk, (w+1)*chunk
+			if hi > len(positions) {
+				hi = len(positions)
+			}
+			if lo >= hi {
+				break
+			}
+			wg.Add(1)
+			go func(lo, hi int) {
+				defer wg.Done()
+				for i := lo; i < hi; i++ {
+					outs[i], _ = suiteVerifyFile(sf.doc, flip(sf.file, positions[i]))
+				}
+			}(lo, hi)
+		}
+		wg.Wait()
+	}
+	for pi, bit := range positions {
 		mut := flip(sf.file, bit)
-		out, _ := suiteVerifyFile(sf.doc, mut)
+		out := outs[pi]
 		reg := lay.region(bit / 8)
 		c.Count("sweep/" + kind + "/" + reg)
 		if out == oPanic {
